@@ -151,10 +151,25 @@ func randomGroup(r *rand.Rand) ([]recSpec, string) {
 	}
 	if r.Intn(3) == 0 {
 		raw := []byte{2, 0, byte(r.Intn(256)), byte(r.Intn(256)), byte(r.Intn(256)), byte(r.Intn(256)), byte(r.Intn(256)), byte(r.Intn(256)), 0, 0, 0, 0, 0, 0, 0, 0}
-		if r.Intn(3) == 0 {
+		switch r.Intn(5) {
+		case 0:
 			raw = append([]byte{1, 0}, []byte("/run/"+coWord(r)+"\x00")...)
+		case 1, 2: // IPv6, with and without flow label and scope id (they become fields of their own)
+			raw = make([]byte, 28)
+			r.Read(raw)
+			raw[0], raw[1] = 10, 0
+			if r.Intn(2) == 0 {
+				copy(raw[4:8], []byte{0, 0, 0, 0})
+			}
+			if r.Intn(2) == 0 {
+				copy(raw[24:28], []byte{0, 0, 0, 0})
+			}
 		}
-		rest = append(rest, recSpec{1306, "saddr=" + strings.ToUpper(hex.EncodeToString(raw))})
+		sa := "saddr=" + strings.ToUpper(hex.EncodeToString(raw))
+		if r.Intn(3) == 0 { // what an enriching daemon, or a later kernel, may add to the record
+			sa += extras(r, 1+r.Intn(2))
+		}
+		rest = append(rest, recSpec{1306, sa})
 	}
 	if r.Intn(2) == 0 {
 		rest = append(rest, recSpec{1327, "proctitle=" + strings.ToUpper(hex.EncodeToString([]byte(coWord(r)+"\x00"+coWord(r)))) + extras(r, r.Intn(2))})
